@@ -86,7 +86,7 @@ claimed["C09"] = dict(
         "no other caller of the storing function than the documented unverified entry), that the pruning primitive never receives a position that could be a root; that a "
         "function switching TotalRows finishes every translation from the old TotalRows first; that Prune clears the keep flag of a leaf it un-indexes on every continuing path; that a "
         "moved node is re-inserted on every path that deletes it; and (layout analysis) that everything stored, fetched, indexed or fed to position arithmetic is in the coordinate "
-        "system of the accompanying forest height. Truth of stored hashes through moves (arithmetic), minimality and provability of the cache are not decided.",
+        "system of the accompanying forest height; and that the keep flag stored with a node in a loop is computed for that position, never carried over from an earlier one. Truth of stored hashes through moves (arithmetic), minimality and provability of the cache are not decided.",
    ref="DESIGN.md 5/C09, engine E2",
    technique="static dominance/guard rules, who-may-call, must-pass-through pairing rules and coordinate-layout abstract interpretation on go/ssa (custom analyzer)")
 
@@ -100,7 +100,7 @@ claimed["C15"] = dict(
 claimed["C01"] = dict(
    text="Thin claim: a static sibling cross-check of the three block-application implementations decides three clauses necessary for equal roots — delete phase "
         "dominates add phase, the older root is the left hash input and the incoming node the right one, and merging is guarded by the root not being empty; and where the map forest moves a node (delete at the old position, put at the new one: growth, "
-        "move-up, undo) the put happens on every path that deletes, empty roots included; the map forest's growth step (sized for one more leaf) is reached on every iteration of the loop over the added leaves; and while a block is applied the leaf count is only ever incremented. Root equality over all histories (position arithmetic, deletion, TotalRows) is not decided.",
+        "move-up, undo) the put happens on every path that deletes, empty roots included; the map forest's growth step (sized for one more leaf) is reached on every iteration of the loop over the added leaves; while a block is applied the leaf count is only ever incremented; and the growth step dominates every store of the inserted leaf. Root equality over all histories (position arithmetic, deletion, TotalRows) is not decided.",
    ref="DESIGN.md 5/C01, engine E2",
    technique="static sibling-agreement cross-check: dominance, data-dependence classification of hash inputs and guard rules on go/ssa (custom analyzer)")
 
@@ -124,7 +124,7 @@ claimed["C05"] = dict(
 claimed["C02"] = dict(
    text="Thin claim on both provers, decided for all inputs: the returned targets are filled index by index from the requested hashes (request order); the returned proof "
         "hashes are filled in the order of the proof positions computed from a sorted copy of those same targets (canonical order); the request order never reaches the "
-        "proof-position function; a hash that cannot be read yields an error, never a proof with a hole; the map forest returns its targets in the tree layout; a literal position is returned only for a forest that has ever had one leaf. That positions are true, that the proof verifies everywhere and "
+        "proof-position function; a hash that cannot be read yields an error, never a proof with a hole; the map forest returns its targets in the tree layout; a literal position is returned only for a forest that has ever had one leaf; a full pointer forest marks every node it creates under Modify to be kept, and prunes nieces only in pairs. That positions are true, that the proof verifies everywhere and "
         "that the two provers agree are not decided.",
    ref="DESIGN.md 5/C02, engines E7+E2",
    technique="static order-class dataflow with map-fill idiom recognition and output contracts; guard rule on fetch sites (custom analyzer)")
